@@ -51,7 +51,7 @@ Next ==
   \/ stage = 0 /\ stage' = 1 /\ kind' \in {"enc", "dec", "key", "hist"} /\ a' \in Bits3 /\ b' = 0
   \/ stage = 1 /\ stage' = 2 /\ UNCHANGED << kind, a >>
      /\ b' \in CASE kind = "enc" -> { n \in PtLensAll : Thorough \/ n <= 64 \/ a = 256 }
-                 [] kind = "dec" -> 0..96
+                 [] kind = "dec" -> (0..96) \cup {272, 288, 304, 528, 1040, 4112}      \* (bodies beyond 256 octets: every pad-length octet fits)
                  [] kind = "key" -> {0}
                  [] OTHER -> IF a = 128 THEN 0..7 ELSE {}
   \/ stage = 2 /\ UNCHANGED << stage, kind, a, b >>
